@@ -40,7 +40,10 @@ type Actor struct {
 	Done    bool
 	// Faulted is set once any fault other than None was delivered to this actor.
 	Faulted bool
-	reqSeq  int
+	// Direct makes every seam call of this actor proceed at once, without parking and without faults: the
+	// harness runs such an actor's operation as one atomic step between two scheduling steps.
+	Direct bool
+	reqSeq int
 }
 
 type actorKey struct{}
@@ -133,6 +136,10 @@ func (s *Sched) Park(ctx context.Context, op, key string, write bool) Fault {
 	if a.Crashed {
 		s.mu.Unlock()
 		return Crashed
+	}
+	if a.Direct {
+		s.mu.Unlock()
+		return None
 	}
 	a.reqSeq++
 	q := &Request{Actor: a, Op: op, Key: key, Write: write, seq: a.reqSeq, ch: make(chan Fault, 1)}
